@@ -101,20 +101,34 @@ def main():
             sh(f"git -C {REPO} worktree remove --force {wt}")
             shutil.rmtree(wt, ignore_errors=True)
 
-    # run the checks against /repo with the patch applied
-    rc, o = sh(f"git -C {REPO} status --porcelain")
-    assert o.strip() == "", f"/repo not clean: {o}"
-    rc, o = sh(f"git -C {REPO} apply {patch}")
+    # run the checks against the repository with the patch applied: /repo itself (default), or a
+    # scratch worktree of /repo's HEAD when --scratch-repo is given (so that /repo stays usable)
+    target = REPO
+    env = None
+    if "--scratch-repo" in sys.argv:
+        target = f"/var/tmp/jxlv-evalrepo-{name}"
+        sh(f"git -C {REPO} worktree remove --force {target}")
+        shutil.rmtree(target, ignore_errors=True)
+        rc, o = sh(f"git -C {REPO} worktree add -q --detach {target} HEAD")
+        assert rc == 0, o
+        env = {"VERIF_REPO": target}
+    meta["checks_ran_against"] = target
+    rc, o = sh(f"git -C {target} status --porcelain")
+    assert o.strip() == "", f"{target} not clean: {o}"
+    rc, o = sh(f"git -C {target} apply {patch}")
     assert rc == 0, o
     try:
         for c in checks:
             t0 = time.time()
-            rc, o = sh(f"./check {c} --tier quick", cwd=VERIF, timeout=3600)
+            rc, o = sh(f"./check {c} --tier quick", cwd=VERIF, timeout=3600, env=env)
             viol = re.findall(r"^violation class=(\S+)", o, re.M)
             meta["ran"].append({"check": c, "exit": rc, "violation_classes": viol, "wall_s": round(time.time() - t0, 1), "tail": o.strip().splitlines()[-1][:300] if o.strip() else ""})
             print(f"{name}: check {c} -> exit {rc} {viol[:3]}")
     finally:
-        sh(f"git -C {REPO} checkout -- .")
+        sh(f"git -C {target} checkout -- .")
+        if target != REPO:
+            sh(f"git -C {REPO} worktree remove --force {target}")
+            shutil.rmtree(target, ignore_errors=True)
     meta["detected_by"] = [r["check"] for r in meta["ran"] if r["exit"] == 1]
     dst = os.path.join(VERIF, "seeded", name)
     os.makedirs(dst, exist_ok=True)
